@@ -58,6 +58,7 @@ type Contract struct {
 	Defines   []*Clause // definitional extension on a fresh result (ghost define, DESIGN §3.5)
 	Panics    []*Clause // panics when C
 	NoPanic   bool
+	NoReturn  bool // the function never returns normally (it always panics): the path ends at a call
 	Modifies  []*Clause
 	Loops     map[string]*LoopSpec // key: "N" for own loops, "callee.N" for loops of inlined callees
 	Splits    []*SplitSpec
@@ -124,7 +125,7 @@ type ContractFile struct {
 var headRe = regexp.MustCompile(`^(func|iface|assume|type|spec|uninterpreted|axiom|lemma|sweep)\b\s*(.*)$`)
 var clauseKw = map[string]bool{"assumes": true, "defines": true, "requires": true, "ensures": true, "panics": true, "split": true, "loop": true, "modifies": true,
 	"immutable": true, "invariant": true, "view": true, "ghost": true, "mode": true, "inline": true, "refines": true,
-	"pure": true, "property": true, "nopanic": true, "trusted": true, "safety": true, "havoc": true, "fresh": true, "opt": true, "assert": true, "region": true, "trust": true}
+	"pure": true, "property": true, "nopanic": true, "noreturn": true, "trusted": true, "safety": true, "havoc": true, "fresh": true, "opt": true, "assert": true, "region": true, "trust": true}
 
 func mustClause(text, where string) *Clause {
 	e, err := ParseExpr(text)
@@ -336,6 +337,8 @@ func ParseContractFile(path, pkgPath string) (cf *ContractFile, err error) {
 		case "panics":
 			rest = strings.TrimSpace(strings.TrimPrefix(rest, "when"))
 			cur.Panics = append(cur.Panics, mustClause(rest, where))
+		case "noreturn":
+			cur.NoReturn = true
 		case "nopanic":
 			cur.NoPanic = true
 		case "trusted":
